@@ -124,7 +124,7 @@ func (tr *Tor) CheckConservation(where string) {
 	}
 	rcnt := make([]int, len(infl))
 	for _, r := range tr.Remotes {
-		if r.Closed() || r.isClosedByUs() {
+		if r.Closed() || r.isClosedByUs() || r.Tainted() {
 			continue
 		}
 		for _, k := range r.Outstanding() {
